@@ -30,6 +30,8 @@ mod mirtie;
 mod t5corpus;
 #[path = "../c01/lirtie.rs"]
 mod lirtie;
+#[path = "../c01/classcorpus.rs"]
+mod classcorpus;
 
 use ast::*;
 use roto::verif_hooks::core::lower_to_mir;
@@ -171,8 +173,30 @@ fn dce_correspondence(rep: &mut Report, drv: &mut Driver, src: &str, ident: &Val
         removed.1 += n(b).saturating_sub(n(a));
         rep.hist("dce-model-vs-real", if *ans == real { "same" } else { "DIFFERENT" });
     }
-    // label numbering is per lowering run and deterministic, so the skeletons must be identical
-    if cfgs.pipeline != cfgs.after {
+    // label numbering is per lowering run and deterministic, so the skeletons must be identical —
+    // except in a function with a `match`: `mir/lower/match_expr.rs` walks a `HashMap` of the
+    // discriminants, so the order of the case blocks and of the switch's branches changes from
+    // one lowering run to the next; there the two skeletons are compared block shape by block
+    // shape (instruction count, kind of terminator, number of branches) as multisets
+    let shape = |it: &CfgItem| {
+        let mut v: Vec<String> = it.blocks.iter().map(|b| {
+            let t = match b.instrs.last() {
+                Some(CfgInstr::Jump(_)) => "j".to_string(),
+                Some(CfgInstr::Return) => "r".to_string(),
+                Some(CfgInstr::Switch(br, d)) => format!("s{}{}", br.len(), if d.is_some() { "d" } else { "" }),
+                _ => "?".to_string(),
+            };
+            format!("{}{t}", b.instrs.len())
+        }).collect();
+        v.sort();
+        (it.name.clone(), v)
+    };
+    let same = if src.contains("match ") {
+        cfgs.pipeline.iter().map(shape).collect::<Vec<_>>() == cfgs.after.iter().map(shape).collect::<Vec<_>>()
+    } else {
+        cfgs.pipeline == cfgs.after
+    };
+    if !same {
         rep.mismatch("the pipeline's MIR differs from lowering + eliminate_dead_code", json!({"case": ident}));
     }
     for it in &cfgs.pipeline {
@@ -292,7 +316,7 @@ fn shrink(drv: &mut Driver, prog: &Prog, ty: STy, arity: usize, ret: STy, args: 
 fn violation_key(p: &Prog) -> String {
     let (cons, _) = constructs(p);
     let control: Vec<&String> = cons.keys().filter(|k| {
-        k.starts_with("if") || k.starts_with("while") || k.starts_with("call") || k.starts_with("return")
+        k.starts_with("if") || k.starts_with("while") || k.starts_with("call") || k.starts_with("return") || k.starts_with("match")
             || k.starts_with("bin&&") || k.starts_with("bin||") || k.starts_with("block") || k.starts_with("dead")
     }).collect();
     if !control.is_empty() {
@@ -310,7 +334,7 @@ fn violation_key(p: &Prog) -> String {
     }
     let mut ops = vec![];
     for f in &p.fns {
-        for s in &f.body.stmts { match s { S::Let(_, _, _, e) | S::Do(e) => find_ops(e, &mut ops) } }
+        for s in &f.body.stmts { match s { S::Let(_, _, _, e) | S::LetX(_, _, _, e) | S::Do(e) => find_ops(e, &mut ops) } }
         if let Some(e) = &f.body.last { find_ops(e, &mut ops); }
     }
     match ops.len() {
@@ -335,7 +359,8 @@ const FRAG_BASE: u64 = 1_000_000;
 
 fn generate(seed: u64, idx: u64) -> (generator::Generated, Vec<Vec<u64>>) {
     let mut p = Prng::for_case(seed, idx);
-    let mut g = generator::gen_program_in(&mut p, idx >= FRAG_BASE);
+    // every other program outside the T5 fragment declares enum types and matches on them
+    let mut g = generator::gen_program_in(&mut p, idx >= FRAG_BASE, idx < FRAG_BASE && idx % 2 == 1);
     if idx >= FRAG_BASE { g.prog = rename_levels(&g.prog); }
     let a = generator::gen_args(&mut p, g.arg_ty, g.arity, 10);
     (g, a)
@@ -557,6 +582,62 @@ fn check_representative(rep: &mut Report, drv: &mut Driver, name: &str, prog: &P
     rep.hist("t5-class-representatives", if ok { "agree" } else { "DIFFERENT" });
 }
 
+/// One class representative of the differential run (`c01/classcorpus.rs`): the Lean Spec, the
+/// harness interpreter (third voice) and the JIT on every argument tuple of the representative.
+fn check_class_rep(rep: &mut Report, drv: &mut Driver, r: &classcorpus::Rep) {
+    let (src, sx) = (source(&r.prog), sexp(&r.prog));
+    let arity = r.prog.main().params.len();
+    let c = Case { src: &src, sexp: &sx, ty: r.ty, arity, ret: r.ret };
+    let ident = json!({"class_representative": r.name, "src": src, "sexp": sx, "ty": r.ty.name(), "arity": arity, "ret": r.ret.name()});
+    let family = r.name.split('/').next().unwrap_or("class").to_string();
+    let spec = match spec_answers(drv, &c, &r.args) {
+        Ok(s) => s,
+        Err(e) => { rep.mismatch("Lean spec rejects a class representative", json!({"case": ident, "error": e})); return; }
+    };
+    if let Some(s) = spec.iter().find(|s| s.starts_with("stuck") || s.starts_with("bad")) {
+        rep.mismatch("Lean spec is stuck on a class representative", json!({"case": ident, "spec": s}));
+        return;
+    }
+    let mut outcomes: BTreeSet<String> = BTreeSet::new();
+    for (a, s) in r.args.iter().zip(&spec) {
+        rep.evaluations += 1;
+        let mut it = Interp::new(&r.prog);
+        let mine = match it.run_main(a) {
+            Ok(v) => { let (t, b) = v_bits(&v); format!("ok {t} {}", canon(t, b)) }
+            Err(Stop::Trap) => "trap".into(),
+            Err(Stop::Fuel) => "fuel".into(),
+            Err(Stop::Stuck(w)) => format!("stuck {w}"),
+            Err(Stop::Ret(_)) => "stuck ret".into(),
+        };
+        let theirs = match parse_ok(s) { Some((t, b)) => format!("ok {t} {b}"), None => s.clone() };
+        if mine != theirs {
+            rep.mismatch("harness interpreter and Lean spec disagree on a class representative", json!({"case": ident, "args": a, "spec": s, "harness": mine}));
+            return;
+        }
+        for o in &it.st.match_outcomes { rep.hist("match-outcomes(class representatives)", *o); }
+        outcomes.insert(theirs);
+    }
+    let comp = match compile_guarded(&c) {
+        Ok(Ok(c)) => c,
+        Ok(Err(e)) => { rep.mismatch("a class representative does not compile", json!({"case": ident, "error": e.chars().take(1500).collect::<String>()})); return; }
+        Err(p) => { rep.violation("the compiler panicked on a well-typed program", &format!("compiler-panic {}", r.key), json!({"case": ident, "panic": p})); return; }
+    };
+    if let Some((i, s, j)) = first_difference(&c, &comp, &r.args, &spec) {
+        let differing = r.args.iter().zip(&spec).filter(|(a, s)| first_difference(&c, &comp, &[(*a).clone()], &[(*s).clone()]).is_some()).count();
+        rep.violation(
+            "the compiled function returns a value different from the language-defined result (Lean Spec)",
+            &r.key,
+            json!({"src": src, "sexp": sx, "ty": r.ty.name(), "arity": arity, "ret": r.ret.name(), "args": r.args[i], "spec": s, "jit_bits": j,
+                   "class_representative": r.name, "differing_tuples": differing, "tuples": r.args.len()}),
+        );
+        rep.hist(&format!("class-representatives {family}"), "DIFFERENT");
+        return;
+    }
+    rep.hist(&format!("class-representatives {family}"), "agree");
+    // a class: the representative, with the number of distinct results it was observed with
+    rep.class(format!("rep:{}|{}", r.name, outcomes.len().min(9)));
+}
+
 fn fnv(s: &str) -> u64 {
     let mut h: u64 = 0xcbf29ce484222325;
     for b in s.bytes() { h ^= b as u64; h = h.wrapping_mul(0x100000001b3); }
@@ -678,6 +759,27 @@ fn main() {
             let seed_s = seed.to_string();
             let ntys = generator::all_tys().len() as u64;
             let extra = if thorough { "1500" } else { "60" };
+            // class representatives of the differential run first (seed-independent), in workers
+            for family in ["match", "match-order", "float"] {
+                let (ended, out) = run_worker_keep_stdout(&["classcorpus", family], Duration::from_secs(300));
+                if let Some(v) = Report::parse_stdout(&out) { rep.merge_json(&v); }
+                if !matches!(ended, Ended::Exit(0, _)) {
+                    let last = out.lines().rev().find(|l| l.starts_with("START ")).unwrap_or("").to_string();
+                    let name = last.strip_prefix("START classcorpus ").unwrap_or("").to_string();
+                    let reps = match family { "match" => classcorpus::match_corpus(), "match-order" => classcorpus::order_corpus(), _ => classcorpus::float_corpus() };
+                    let input = match reps.iter().find(|r| r.name == name) {
+                        Some(r) => json!({"src": source(&r.prog), "sexp": sexp(&r.prog), "ty": r.ty.name(), "arity": r.prog.main().params.len(),
+                                          "ret": r.ret.name(), "args": r.args[0], "class_representative": r.name, "ended": format!("{ended:?}"),
+                                          "note": "the process died or hung on one of the representative's argument tuples; args is the first tuple"}),
+                        None => json!({"ended": format!("{ended:?}"), "last": last}),
+                    };
+                    rep.violation(
+                        "process died or hung while compiling or running a class representative where the spec yields a value",
+                        &format!("control-flow crash classcorpus {family}"),
+                        input,
+                    );
+                }
+            }
             run_batches(&["table", &seed_s, extra], ntys, 1, Duration::from_secs(600), &mut rep,
                 |rep: &mut Report, idx: u64, how: &Ended| {
                     rep.violation(
@@ -696,8 +798,8 @@ fn main() {
                     json!({"ended": format!("{ended:?}"), "last": out.lines().rev().find(|l| l.starts_with("START ")).unwrap_or("")}),
                 );
             }
-            let n: u64 = if thorough { 20_000 } else { 300 };
-            let nfrag: u64 = if thorough { 6_000 } else { 150 };
+            let n: u64 = if thorough { 20_000 } else { 1_000 };
+            let nfrag: u64 = if thorough { 6_000 } else { 300 };
             // like `worker::run_batches`, with a budget of crashes/hangs: a compiler that
             // miscompiles loops makes many programs hang, and one replay is enough
             let mut crashes = 0u32;
@@ -760,6 +862,20 @@ fn main() {
                             std::io::stdout().flush().ok();
                         }
                     }
+                }
+                "classcorpus" => {
+                    let reps = match args[3].as_str() { "match" => classcorpus::match_corpus(), "match-order" => classcorpus::order_corpus(), _ => classcorpus::float_corpus() };
+                    for r in &reps {
+                        println!("START classcorpus {}", r.name);
+                        std::io::stdout().flush().ok();
+                        let before = rep.impl_violations.len() + rep.model_mismatches.len();
+                        check_class_rep(&mut rep, &mut drv, r);
+                        if rep.impl_violations.len() + rep.model_mismatches.len() != before {
+                            rep.emit();
+                            std::io::stdout().flush().ok();
+                        }
+                    }
+                    rep.notes.push(format!("class representatives ({}): {}", args[3], reps.len()));
                 }
                 "t5corpus" => {
                     for (k, (name, prog, ty, ret, ir)) in t5corpus::corpus().into_iter().enumerate() {
